@@ -65,14 +65,28 @@ func c11Profiles(quick bool) []*bworld.Profile {
 		JSONLog:     true,
 		Oracles:     []string{"C11"},
 	}
+	/* Shutdown with streams attached: every record is written before Do
+	returns. */
+	down := bworld.Profile{
+		Name:        "c11-shutdown",
+		OchCap:      1024,
+		Starts:      []bworld.StartSpec{{Kind: "in", Key: "k", WKind: 2, Max: 1}, {Kind: "out", Key: "k", Max: 1}, {Kind: "io", WKind: 3, Max: 1}},
+		MaxAttempts: 2,
+		MaxLines:    1,
+		Outs:        []bworld.OutSpec{{Data: "<chunk#>"}},
+		MaxOuts:     1,
+		Shutdown:    true,
+		JSONLog:     true,
+		Oracles:     []string{"C11"},
+	}
 	if quick {
 		mix.Shutdown = false
-		return []*bworld.Profile{&slow, &mix, &io}
+		return []*bworld.Profile{&slow, &down, &mix, &io}
 	}
 	mix.MaxAttempts = 4
 	io.MaxAttempts = 3
 	io.Shutdown = true
-	return []*bworld.Profile{&slow, &mix, &io}
+	return []*bworld.Profile{&slow, &down, &mix, &io}
 }
 
 // c11Payloads: every string of <=3 symbols over a JSON-hostile alphabet.
